@@ -194,8 +194,12 @@ type Monitor struct {
 	Race     bool // must run in a -race build
 	// MinNontrivial is the floor of distinct non-trivial cases below which a run is inconclusive.
 	MinNontrivial func(tier string) int
-	// Required lists counters that must be non-zero (mechanisms the workload must have reached).
+	// Required lists counters that must be non-zero: observations the HARNESS controls (grid cells, relations
+	// exercised, overlapping operations), never names of the engine's internals - iterator types reached
+	// (VerifQueryShape) are recorded as evidence only, so that a refactoring of internals cannot make a run inconclusive.
 	Required []string
+	// Exhaustive names the families that enumerate a finite space completely (independent of the seed).
+	Exhaustive []string
 	// Post runs in the driver after all workers finished (e.g. to analyse race logs).
 	Post func(rep *Report, workdir string, tier string)
 }
